@@ -159,6 +159,8 @@ fn table_1d(args: &Args, ev: &mut Ev, full: bool) {
         St::Individual("wrong-leading"),
         St::Individual("wrong-trailing"),
         St::Individual("wrong-rank"),
+        St::Individual("trailing-permuted"),
+        St::Individual("trailing-merged"),
     ];
     let mut case: u64 = 0;
     for st in &strategies {
@@ -237,6 +239,20 @@ fn table_1d(args: &Args, ev: &mut Ev, full: bool) {
                                             bshape[l] += 1;
                                         } else {
                                             bshape[0] = 3;
+                                        }
+                                    }
+                                    // same number of elements, wrong shape
+                                    "trailing-permuted" => {
+                                        let l = bshape.len();
+                                        if l >= 3 {
+                                            bshape.swap(l - 1, l - 2);
+                                        }
+                                    }
+                                    "trailing-merged" => {
+                                        let l = bshape.len();
+                                        if l >= 3 {
+                                            bshape[l - 2] *= bshape[l - 1];
+                                            bshape[l - 1] = 1;
                                         }
                                     }
                                     _ => bshape.push(1),
